@@ -15,6 +15,8 @@ import (
 	"fmt"
 	"hash/fnv"
 	"net/url"
+	"os"
+	"runtime"
 	"sort"
 	"strings"
 	"testing"
@@ -108,7 +110,28 @@ func zkrun(c *harness.Ctx) {
 	synctest.Test(c.T, func(t *testing.T) { bubble(c) })
 }
 
+// seededSource pins d2's package-level random generator (it is seeded from the wall clock at
+// process start, outside any bubble) to values drawn up front from the choice stream.
+type seededSource struct {
+	vals []int64
+	i    int
+}
+
+func (s *seededSource) Int63() int64 { s.i++; return s.vals[s.i%len(s.vals)] }
+func (s *seededSource) Seed(int64)   {}
+
+func pinRandomness(c *harness.Ctx) {
+	src := &seededSource{}
+	for i := 0; i < 32; i++ {
+		src.vals = append(src.vals, int64(c.Choose(1<<20, "rng"))<<43)
+	}
+	d2.VerifSetRngSource(src)
+	// select's poll order and the order of simultaneous fake timers (runtime seam, see overlayfiles/runtime)
+	runtime.VerifSeed(uint64(c.Choose(1<<30, "rtseed")))
+}
+
 func bubble(c *harness.Ctx) {
+	pinRandomness(c)
 	epoch := time.Now()
 	now := func() time.Duration { return time.Since(epoch) }
 	z := fakezk.New()
@@ -324,6 +347,10 @@ func bubble(c *harness.Ctx) {
 	sort.Strings(rs)
 	h.Write([]byte(strings.Join(rs, "\n")))
 	c.Digest(h.Sum64())
+	if f := os.Getenv("S3_DUMP"); f != "" {
+		// debugging aid for the determinism self-test: the full trace of one run
+		_ = os.WriteFile(f, []byte(strings.Join(tr, "\n")+"\n--\n"+strings.Join(rs, "\n")+"\n"), 0o644)
+	}
 	conn.Close()
 }
 
